@@ -1,6 +1,437 @@
-(* C19 — property theorems (under construction: model only so far). *)
-From Coq Require Import List ZArith Permutation.
+(* C19 — index building blocks behave as multimaps.  Property theorems only: each statement is given in
+   full and proved by reference into Index/IndexRefine.v (serial types) and Index/ConcIndex.v (concurrent
+   types).  Specification: Index/MultiMap.v (multimap = list of (key, value) entries up to Permutation;
+   set = duplicate-free list up to Permutation).  Model: Index/IndexModel.v (mirror of ascent/src/internal.rs,
+   rel_index_read.rs, c_rel_index.rs, c_rel_full_index.rs, c_lat_index.rs, c_rel_no_index.rs).
+   Every theorem holds for EVERY order oracle [sh] (hash map / hash set iteration and drain order) that
+   permutes its argument, and for EVERY shard placement [hash].  Concurrency: every DashMap entry operation /
+   RwLock-protected push is one atomic step; [interleave threads schedule] ranges over all interleavings.
+   Invariants: hv_wf / lat_wf / cri_wf / cfi_wf / clat_wf hold of the empty index and are preserved by every
+   operation (part of each statement), i.e. they hold of every reachable state. *)
+From Coq Require Import List ZArith Bool Permutation.
 From AV Require Import Index.MultiMap.
 From AV Require Import Index.IndexModel.
+From AV Require Import Index.IndexRefine.
+From AV Require Import Index.ConcIndex.
 Import ListNotations.
 Open Scope Z_scope.
+
+(* ================================================================ RelIndexType1 (hash map of vectors) *)
+(* index_insert adds exactly one entry *)
+Theorem c19_hv_insert : forall k v m,
+  Permutation (hv_abs (hv_insert k v m)) (mm_insert k v (hv_abs m)) /\ (hv_wf m -> hv_wf (hv_insert k v m)).
+Proof. intros k v m; split; [exact (hv_insert_abs k v m) | exact (hv_insert_wf k v m)]. Qed.
+
+(* index_get returns exactly the values stored under the key (with multiplicity, in order); None iff there are none *)
+Theorem c19_hv_lookup : forall k m, hv_wf m ->
+  match hv_get k m with
+  | Some vs => vs = mm_lookup k (hv_abs m) /\ vs <> []
+  | None => mm_lookup k (hv_abs m) = []
+  end.
+Proof. exact hv_get_spec. Qed.
+
+(* after any sequence of inserts into an empty index a lookup returns exactly the values inserted under that key *)
+Theorem c19_hv_inserts_then_lookup : forall (l : list (Z * Z)) k,
+  hv_wf (hv_of_inserts l) /\
+  Permutation (hv_abs (hv_of_inserts l)) (mm_of_inserts l) /\
+  hv_get k (hv_of_inserts l) = match mm_lookup k l with [] => None | vs => Some vs end.
+Proof. intros l k; split; [exact (hv_of_inserts_wf l) | split; [exact (hv_of_inserts_abs l) | exact (hv_of_inserts_get l k)]]. Qed.
+
+(* iter_all yields every entry once and every key once *)
+Theorem c19_hv_iter_all : forall sh, permuting sh -> forall m,
+  Permutation (hv_abs (hv_iter_all sh m)) (mm_entries (hv_abs m)) /\ (hv_wf m -> NoDup (map fst (hv_iter_all sh m))).
+Proof. intros sh P m; split; [exact (hv_iter_all_abs sh P m) | exact (hv_iter_all_keys sh P m)]. Qed.
+
+(* len_estimate = number of distinct keys; is_empty iff no entry *)
+Theorem c19_hv_len : forall m, hv_wf m -> hv_len m = zlen (mm_keys (hv_abs m)) /\ (hv_is_empty m = true <-> hv_abs m = []).
+Proof. intros m W; split; [exact (hv_len_spec m W) | exact (hv_is_empty_spec m W)]. Qed.
+
+(* move_index_contents, whichever side is larger (the size test swaps the two maps, and per key the two vectors):
+   source emptied, destination = union *)
+Theorem c19_hv_move : forall sh, permuting sh -> forall from to,
+  fst (hv_move sh from to) = [] /\
+  Permutation (hv_abs (snd (hv_move sh from to))) (mm_union (hv_abs to) (hv_abs from)) /\
+  (hv_wf from -> hv_wf to -> hv_wf (snd (hv_move sh from to))) /\
+  snd (hv_move sh from to) = (if (length to <? length from)%nat then hv_drain_into sh to from else hv_drain_into sh from to).
+Proof.
+  intros sh P from to; destruct (hv_move_spec sh P from to) as [H1 [H2 H3]];
+    exact (conj H1 (conj H2 (conj H3 (hv_move_swaps sh from to)))).
+Qed.
+
+(* merge_delta_to_total_new_to_delta: total' = total + delta, delta' = new, new' = empty *)
+Theorem c19_hv_merge : forall sh, permuting sh -> forall new delta total,
+  let '(n', d', t') := merge3 (hv_move sh) new delta total in
+  n' = [] /\ d' = new /\ Permutation (hv_abs t') (mm_union (hv_abs total) (hv_abs delta)) /\
+  (hv_wf delta -> hv_wf total -> hv_wf t').
+Proof. exact hv_merge_spec. Qed.
+
+(* ALL operation sequences: after any history of inserts, moves (any two distinct versions, either side larger) and
+   merges over the three versions new / delta / total, every version satisfies the invariant and abstracts to the
+   multimap computed by the same history on the specification; hence every lookup made afterwards answers from
+   the abstract content.  [run (I_hv sh)] is the interpreter the correspondence runs evaluate. *)
+Theorem c19_hv_history : forall sh, permuting sh -> forall ops, Forall wop_ok ops ->
+  rel3 (hv_run_writes sh ops) (mm_run_writes ops) /\
+  (forall s k, match hv_get k (slot_get s (hv_run_writes sh ops)) with
+               | Some vs => Permutation vs (mm_lookup k (slot_get s (mm_run_writes ops))) /\ vs <> []
+               | None => mm_lookup k (slot_get s (mm_run_writes ops)) = []
+               end) /\
+  (forall r, run (I_hv sh) (map to_op ops ++ r) ([], [], []) = run (I_hv sh) r (hv_run_writes sh ops)).
+Proof.
+  intros sh P ops F; split; [exact (hv_history sh P ops F) | split;
+    [intros s k; exact (hv_history_lookup sh P ops s k F) | intros r; exact (run_hv_writes sh ops r F ([], [], []))]].
+Qed.
+
+(* ================================================================ RelFullIndexType (hashbrown map; a set of keys) *)
+Theorem c19_full_insert : forall k v m, NoDup (fm_keys m) ->
+  set_eq (fm_keys (fm_insert k v m)) (ks_ins k (fm_keys m)) /\
+  (forall k', fm_get k' (fm_insert k v m) = if k =? k' then Some v else fm_get k' m).
+Proof. exact fm_insert_spec. Qed.
+
+(* insert_if_not_present returns true iff the key is absent, and inserts exactly then *)
+Theorem c19_full_insert_if_not_present : forall k v m, NoDup (fm_keys m) ->
+  let '(m', b) := fm_insert_if_not_present k v m in
+  b = negb (fm_contains k m) /\ (b = false -> m' = m) /\ NoDup (fm_keys m') /\
+  set_eq (fm_keys m') (ks_ins k (fm_keys m)) /\
+  (forall k', fm_get k' m' = if b && (k =? k') then Some v else fm_get k' m).
+Proof. exact fm_insert_if_not_present_spec. Qed.
+
+Theorem c19_full_contains : forall k m,
+  fm_contains k m = ks_mem k (fm_keys m) /\ fm_index_get k m = match fm_get k m with Some v => Some [v] | None => None end.
+Proof. intros k m; split; [exact (fm_contains_spec k m) | exact (fm_index_get_spec k m)]. Qed.
+
+(* move_index_contents, whichever side is larger: key set = union; a key on both sides keeps the value of the
+   side that was drained; with disjoint key sets (what generated code maintains) every entry survives *)
+Theorem c19_full_move : forall sh, permuting sh -> forall from to, NoDup (fm_keys from) -> NoDup (fm_keys to) ->
+  fst (fm_move sh from to) = [] /\
+  NoDup (fm_keys (snd (fm_move sh from to))) /\
+  set_eq (fm_keys (snd (fm_move sh from to))) (ks_union (fm_keys to) (fm_keys from)) /\
+  (forall k, fm_get k (snd (fm_move sh from to)) =
+     if (length to <? length from)%nat
+     then match fm_get k to with Some v => Some v | None => fm_get k from end
+     else match fm_get k from with Some v => Some v | None => fm_get k to end).
+Proof. exact fm_move_spec. Qed.
+
+Theorem c19_full_move_disjoint : forall sh, permuting sh -> forall from to, NoDup (fm_keys from) -> NoDup (fm_keys to) ->
+  (forall k, In k (fm_keys from) -> ~ In k (fm_keys to)) ->
+  forall k, fm_get k (snd (fm_move sh from to)) = match fm_get k from with Some v => Some v | None => fm_get k to end.
+Proof. exact fm_move_disjoint. Qed.
+
+Theorem c19_full_merge : forall sh, permuting sh -> forall new delta total, NoDup (fm_keys delta) -> NoDup (fm_keys total) ->
+  let '(n', d', t') := merge3 (fm_move sh) new delta total in
+  n' = [] /\ d' = new /\ NoDup (fm_keys t') /\ set_eq (fm_keys t') (ks_union (fm_keys total) (fm_keys delta)).
+Proof. exact fm_merge_spec. Qed.
+
+Theorem c19_full_iter_all : forall sh, permuting sh -> forall m,
+  Permutation (hv_abs (fm_iter_all sh m)) m /\ (NoDup (fm_keys m) -> NoDup (map fst (fm_iter_all sh m))) /\
+  fm_len m = zlen (fm_keys m).
+Proof. intros sh P m; split; [exact (fm_iter_all_abs sh P m) | split; [exact (fm_iter_all_keys sh P m) | exact (fm_len_spec m)]]. Qed.
+
+(* ================================================================ LatticeIndexType (key -> set of rows) *)
+Theorem c19_lat_insert : forall k v m, lat_wf m ->
+  lat_wf (lat_insert k v m) /\ set_eq (hv_abs (lat_insert k v m)) (ps_ins k v (hv_abs m)).
+Proof. exact lat_insert_spec. Qed.
+
+Theorem c19_lat_lookup : forall sh, permuting sh -> forall k m, lat_wf m ->
+  match lat_get sh k m with
+  | Some vs => Permutation vs (mm_lookup k (hv_abs m)) /\ NoDup vs /\ vs <> []
+  | None => mm_lookup k (hv_abs m) = []
+  end.
+Proof. exact lat_get_spec. Qed.
+
+Theorem c19_lat_iter_all : forall sh, permuting sh -> forall m,
+  Permutation (hv_abs (lat_iter_all sh m)) (mm_entries (hv_abs m)) /\
+  (lat_wf m -> NoDup (map fst (lat_iter_all sh m)) /\ NoDup (hv_abs m)).
+Proof.
+  intros sh P m; split; [exact (lat_iter_all_abs sh P m) | intros W; exact (conj (lat_iter_all_keys sh P m W) (hv_abs_NoDup m W))].
+Qed.
+
+Theorem c19_lat_move : forall sh, permuting sh -> forall from to, lat_wf from -> lat_wf to ->
+  fst (lat_move sh from to) = [] /\ lat_wf (snd (lat_move sh from to)) /\
+  set_eq (hv_abs (snd (lat_move sh from to))) (ps_union (hv_abs to) (hv_abs from)).
+Proof. exact lat_move_spec. Qed.
+
+Theorem c19_lat_merge : forall sh, permuting sh -> forall new delta total, lat_wf delta -> lat_wf total ->
+  let '(n', d', t') := merge3 (lat_move sh) new delta total in
+  n' = [] /\ d' = new /\ lat_wf t' /\ set_eq (hv_abs t') (ps_union (hv_abs total) (hv_abs delta)).
+Proof. exact lat_merge_spec. Qed.
+
+(* ================================================================ RelNoIndexType (vector) and RelIndexCombined *)
+Theorem c19_noindex : forall v l new delta total,
+  Permutation (ni_insert v l) (v :: l) /\ merge3 ni_move new delta total = ([], new, total ++ delta).
+Proof. intros v l new delta total; split; [exact (ni_insert_spec v l) | exact (ni_merge_spec new delta total)]. Qed.
+
+(* the combined view answers with total's values followed by delta's: lookup and iteration of the sum *)
+Theorem c19_combined : forall k m1 m2, NoDup (hv_keys m1) -> NoDup (hv_keys m2) ->
+  flat_opt (comb_get (hv_get k m1) (hv_get k m2)) = mm_lookup k (mm_union (hv_abs m1) (hv_abs m2)) /\
+  (comb_get (hv_get k m1) (hv_get k m2) = None <-> hv_get k m1 = None /\ hv_get k m2 = None) /\
+  hv_abs (comb_iter_all m1 m2) = mm_union (hv_abs m1) (hv_abs m2).
+Proof.
+  intros k m1 m2 N1 N2; split; [exact (comb_get_spec k m1 m2 N1 N2) | split; [exact (comb_get_none _ _) | exact (comb_iter_all_abs m1 m2)]].
+Qed.
+
+(* ================================================================ CRelIndex (DashMap of vectors) *)
+Theorem c19_cri_insert : forall hash k v c, fst c = false -> has_shards hvec c ->
+  exists c', cri_insert hash k v c = Ok c' /\ fst c' = false /\ length (snd c') = length (snd c) /\
+             Permutation (cri_abs c') (mm_insert k v (cri_abs c)) /\ (cri_wf hash c -> cri_wf hash c').
+Proof. exact cri_insert_spec. Qed.
+
+Theorem c19_cri_lookup : forall hash k c, fst c = true -> has_shards hvec c -> cri_wf hash c ->
+  exists r, cri_get hash k c = Ok r /\
+    match r with
+    | Some vs => vs = mm_lookup k (cri_abs c) /\ vs <> []
+    | None => mm_lookup k (cri_abs c) = []
+    end.
+Proof. exact cri_get_spec. Qed.
+
+Theorem c19_cri_iter_all : forall sh, permuting sh -> forall hash c, fst c = true ->
+  exists l, cri_iter_all sh c = Ok l /\ Permutation (hv_abs l) (mm_entries (cri_abs c)) /\ (cri_wf hash c -> NoDup (map fst l)).
+Proof. exact cri_iter_all_spec. Qed.
+
+(* freeze / unfreeze: identity on the contents; reads need the frozen, writes the unfrozen state *)
+Theorem c19_cri_freeze : forall hash (c : cri),
+  cri_abs (dm_freeze c) = cri_abs c /\ cri_abs (dm_unfreeze c) = cri_abs c /\
+  (cri_wf hash c -> cri_wf hash (dm_freeze c) /\ cri_wf hash (dm_unfreeze c)) /\
+  (forall k v, fst c = true -> cri_insert hash k v c = Panic) /\ (forall k, fst c = false -> cri_get hash k c = Panic).
+Proof.
+  intros hash c; destruct (cri_freeze_spec hash c) as [H1 [H2 H3]];
+    exact (conj H1 (conj H2 (conj H3 (conj (fun k v => cri_insert_frozen hash k v c) (fun k => cri_get_unfrozen hash k c))))).
+Qed.
+
+Theorem c19_cri_merge : forall sh, permuting sh -> forall hash (new : cri) delta total,
+  fst delta = false -> fst total = false -> length (snd delta) = length (snd total) ->
+  exists n' t', merge3r (cri_move sh) new delta total = Ok (n', new, t') /\
+    cri_abs n' = [] /\ fst n' = false /\ fst t' = false /\
+    Permutation (cri_abs t') (mm_union (cri_abs total) (cri_abs delta)) /\
+    (cri_wf hash delta -> cri_wf hash total -> cri_wf hash n' /\ cri_wf hash t').
+Proof. exact cri_merge_spec. Qed.
+
+(* concurrent inserts from many threads are all retained: for EVERY interleaving of the atomic steps *)
+Theorem c19_cri_concurrent : forall hash (threads : list (list (Z * Z))) schedule c,
+  fst c = false -> has_shards hvec c -> interleave threads schedule ->
+  exists c', steps (cri_step hash) schedule c = Ok c' /\
+             Permutation (cri_abs c') (mm_union (mm_of_inserts (concat threads)) (cri_abs c)) /\
+             (cri_wf hash c -> cri_wf hash c').
+Proof. exact cri_concurrent_inserts. Qed.
+
+(* end to end: whatever the interleaving, after the parallel phase and a freeze every lookup returns exactly the
+   values inserted under the key by all threads together *)
+Theorem c19_cri_concurrent_then_lookup : forall hash n (threads : list (list (Z * Z))) schedule, n <> O -> interleave threads schedule ->
+  exists c', steps (cri_step hash) schedule (dm_default [] n) = Ok c' /\
+    forall k, exists r, cri_get hash k (dm_freeze c') = Ok r /\
+      match r with
+      | Some vs => Permutation vs (mm_lookup k (mm_of_inserts (concat threads))) /\ vs <> []
+      | None => mm_lookup k (mm_of_inserts (concat threads)) = []
+      end.
+Proof. exact cri_concurrent_then_lookup. Qed.
+
+(* ================================================================ CRelFullIndex (DashMap; a set of keys) *)
+Theorem c19_cfi_insert_if_not_present : forall hash k v c, fst c = false -> has_shards fmap c ->
+  exists c', cfi_insert_if_not_present hash k v c = Ok (c', negb (cfi_has hash k c)) /\ fst c' = false /\
+    length (snd c') = length (snd c) /\
+    (forall k', cfi_lookup hash k' c' = if negb (cfi_has hash k c) && (k =? k') then Some v else cfi_lookup hash k' c) /\
+    (forall k', cfi_has hash k' c' = cfi_has hash k' c || (k =? k')) /\
+    (cfi_wf hash c -> cfi_wf hash c').
+Proof. exact cfi_insert_if_not_present_spec. Qed.
+
+Theorem c19_cfi_insert : forall hash k v c, fst c = false -> has_shards fmap c ->
+  exists c', cfi_insert hash k v c = Ok c' /\ fst c' = false /\ length (snd c') = length (snd c) /\
+    (forall k', cfi_lookup hash k' c' = if k =? k' then Some v else cfi_lookup hash k' c) /\ (cfi_wf hash c -> cfi_wf hash c').
+Proof. exact cfi_insert_spec. Qed.
+
+(* reads: index_get / contains_key / iter_all all present the same set of entries *)
+Theorem c19_cfi_reads : forall sh, permuting sh -> forall hash c, fst c = true -> has_shards fmap c ->
+  (forall k, cfi_get hash k c = Ok (match cfi_lookup hash k c with Some v => Some [v] | None => None end) /\
+             cfi_contains hash k c = Ok (cfi_has hash k c)) /\
+  (cfi_wf hash c -> forall k v, In (k, v) (cfi_entries c) <-> cfi_lookup hash k c = Some v) /\
+  (exists l, cfi_iter_all sh c = Ok l /\ Permutation (hv_abs l) (mm_entries (cfi_entries c)) /\ (cfi_wf hash c -> NoDup (map fst l))) /\
+  cfi_len c = Ok (mm_size (cfi_entries c)).
+Proof.
+  intros sh P hash c Hf Hs; split; [intros k; exact (cfi_get_spec hash k c Hf Hs) | split;
+    [intros W k v; exact (cfi_lookup_entries hash k v c Hs W) | split;
+      [exact (cfi_iter_all_spec sh P hash c Hf) | exact (proj1 (cfi_len_spec c Hf))]]].
+Qed.
+
+Theorem c19_cfi_freeze : forall hash (c : cfi),
+  cfi_entries (dm_freeze c) = cfi_entries c /\ cfi_entries (dm_unfreeze c) = cfi_entries c /\
+  (forall k, cfi_lookup hash k (dm_freeze c) = cfi_lookup hash k c /\ cfi_lookup hash k (dm_unfreeze c) = cfi_lookup hash k c) /\
+  (cfi_wf hash c -> cfi_wf hash (dm_freeze c) /\ cfi_wf hash (dm_unfreeze c)).
+Proof. exact cfi_freeze_spec. Qed.
+
+Theorem c19_cfi_move : forall sh, permuting sh -> forall hash from to,
+  fst from = false -> fst to = false -> length (snd from) = length (snd to) -> has_shards fmap to ->
+  exists f' t', cfi_move sh from to = Ok (f', t') /\ fst f' = false /\ fst t' = false /\
+    cfi_entries f' = [] /\ length (snd f') = length (snd from) /\ length (snd t') = length (snd to) /\
+    (forall k, cfi_lookup hash k t' = fm_get k (snd (fm_move sh (cfi_shard hash k from) (cfi_shard hash k to)))) /\
+    (cfi_wf hash from -> cfi_wf hash to ->
+       cfi_wf hash f' /\ cfi_wf hash t' /\
+       (forall k, cfi_has hash k t' = cfi_has hash k from || cfi_has hash k to) /\
+       (forall k v, cfi_lookup hash k t' = Some v -> cfi_lookup hash k from = Some v \/ cfi_lookup hash k to = Some v) /\
+       ((forall k, cfi_has hash k from = true -> cfi_has hash k to = false) ->
+          forall k, cfi_lookup hash k t' = match cfi_lookup hash k from with Some v => Some v | None => cfi_lookup hash k to end)).
+Proof. exact cfi_move_spec. Qed.
+
+(* insert-if-absent succeeds for exactly one of the callers racing on a key: for EVERY interleaving *)
+Theorem c19_cfi_concurrent_one_winner : forall hash (threads : list (list (Z * Z))) schedule c,
+  fst c = false -> has_shards fmap c -> interleave threads schedule ->
+  exists c' rs, cfi_np_steps hash schedule c = Ok (c', rs) /\
+    (forall k, winners k rs = if cfi_has hash k c then 0%nat else if called k (concat threads) then 1%nat else 0%nat) /\
+    (forall k, cfi_has hash k c' = cfi_has hash k c || called k (concat threads)) /\
+    (forall k v, cfi_lookup hash k c' = Some v -> cfi_lookup hash k c = Some v \/ (cfi_has hash k c = false /\ In (k, v) (concat threads))) /\
+    (cfi_wf hash c -> cfi_wf hash c').
+Proof. exact cfi_concurrent_insert_if_not_present. Qed.
+
+(* threads mixing index_insert (overwrite) and insert_if_not_present: never two winners on a key; none if the key
+   was present; exactly one if it was absent and nobody overwrites it in the phase *)
+Theorem c19_cfi_concurrent_mixed : forall hash (threads : list (list (bool * Z * Z))) schedule c,
+  fst c = false -> has_shards fmap c -> interleave threads schedule ->
+  exists c' rs, cfi_mixed_steps hash schedule c = Ok (c', rs) /\
+    (forall k, (winners k rs <= 1)%nat) /\
+    (forall k, cfi_has hash k c = true -> winners k rs = 0%nat) /\
+    (forall k, cfi_has hash k c = false -> mcalled false k (concat threads) = false ->
+               winners k rs = if mcalled true k (concat threads) then 1%nat else 0%nat) /\
+    (forall k, cfi_has hash k c' = cfi_has hash k c || mcalled true k (concat threads) || mcalled false k (concat threads)) /\
+    (cfi_wf hash c -> cfi_wf hash c').
+Proof. exact cfi_concurrent_mixed. Qed.
+
+(* ================================================================ CLatIndex (DashMap of sets) *)
+Theorem c19_clat_insert : forall hash k v c, fst c = false -> has_shards lmap c -> clat_wf hash c ->
+  exists c', clat_insert hash k v c = Ok c' /\ fst c' = false /\ length (snd c') = length (snd c) /\ clat_wf hash c' /\
+             set_eq (clat_abs c') (ps_ins k v (clat_abs c)).
+Proof. exact clat_insert_spec. Qed.
+
+Theorem c19_clat_lookup : forall sh, permuting sh -> forall hash k c, fst c = true -> has_shards lmap c -> clat_wf hash c ->
+  exists r, clat_get sh hash k c = Ok r /\
+    match r with
+    | Some vs => Permutation vs (mm_lookup k (clat_abs c)) /\ NoDup vs /\ vs <> []
+    | None => mm_lookup k (clat_abs c) = []
+    end.
+Proof. exact clat_get_spec. Qed.
+
+Theorem c19_clat_iter_all : forall sh, permuting sh -> forall hash c, fst c = true ->
+  exists l, clat_iter_all sh c = Ok l /\ Permutation (hv_abs l) (mm_entries (clat_abs c)) /\ (clat_wf hash c -> NoDup (map fst l)).
+Proof. exact clat_iter_all_spec. Qed.
+
+Theorem c19_clat_freeze : forall hash (c : clat),
+  clat_abs (dm_freeze c) = clat_abs c /\ clat_abs (dm_unfreeze c) = clat_abs c /\
+  (clat_wf hash c -> clat_wf hash (dm_freeze c) /\ clat_wf hash (dm_unfreeze c)).
+Proof. exact clat_freeze_spec. Qed.
+
+Theorem c19_clat_merge : forall sh, permuting sh -> forall hash (new : clat) delta total,
+  fst delta = false -> fst total = false -> length (snd delta) = length (snd total) ->
+  clat_wf hash delta -> clat_wf hash total ->
+  exists n' t', merge3r (clat_move sh) new delta total = Ok (n', new, t') /\
+    clat_abs n' = [] /\ fst n' = false /\ fst t' = false /\ clat_wf hash n' /\ clat_wf hash t' /\
+    set_eq (clat_abs t') (ps_union (clat_abs total) (clat_abs delta)).
+Proof. exact clat_merge_spec. Qed.
+
+Theorem c19_clat_concurrent : forall hash (threads : list (list (Z * Z))) schedule c,
+  fst c = false -> has_shards lmap c -> clat_wf hash c -> interleave threads schedule ->
+  exists c', steps (clat_step hash) schedule c = Ok c' /\ clat_wf hash c' /\ NoDup (clat_abs c') /\
+             (forall e, In e (clat_abs c') <-> In e (concat threads) \/ In e (clat_abs c)).
+Proof. exact clat_concurrent_inserts. Qed.
+
+Theorem c19_clat_concurrent_then_lookup : forall sh, permuting sh -> forall hash n (threads : list (list (Z * Z))) schedule,
+  n <> O -> interleave threads schedule ->
+  exists c', steps (clat_step hash) schedule (dm_default [] n) = Ok c' /\
+    forall k, exists r, clat_get sh hash k (dm_freeze c') = Ok r /\
+      match r with
+      | Some vs => NoDup vs /\ vs <> [] /\ forall v, In v vs <-> In (k, v) (concat threads)
+      | None => forall v, ~ In (k, v) (concat threads)
+      end.
+Proof. exact clat_concurrent_then_lookup. Qed.
+
+(* ================================================================ CRelNoIndex (per-thread shard vectors) *)
+Theorem c19_cni_insert : forall tid v c, fst c = false -> snd c <> [] ->
+  exists c', cni_insert tid v c = Ok c' /\ fst c' = false /\ length (snd c') = length (snd c) /\
+             Permutation (cni_abs c') (v :: cni_abs c).
+Proof. exact cni_insert_spec. Qed.
+
+Theorem c19_cni_reads_freeze : forall c,
+  (fst c = true -> cni_get c = Ok (Some (cni_abs c))) /\ (fst c = false -> cni_get c = Panic) /\
+  cni_abs (cni_freeze c) = cni_abs c /\ cni_abs (cni_unfreeze c) = cni_abs c.
+Proof.
+  intros c; destruct (cni_freeze_spec c) as [H1 [H2 _]]; exact (conj (cni_get_spec c) (conj (cni_get_unfrozen c) (conj H1 H2))).
+Qed.
+
+(* the merge equation, under its explicit precondition: equal shard counts (values created in the same pool) *)
+Theorem c19_cni_merge : forall (new : cni) delta total, length (snd delta) = length (snd total) ->
+  exists n' t', merge3r cni_move new delta total = Ok (n', new, t') /\
+    cni_abs n' = [] /\ Permutation (cni_abs t') (cni_abs total ++ cni_abs delta).
+Proof. exact cni_merge_spec. Qed.
+
+(* without the precondition nothing is lost or duplicated across new + delta + total taken together ... *)
+Theorem c19_cni_merge_conserves : forall new delta total : cni,
+  exists n' t', merge3r cni_move new delta total = Ok (n', new, t') /\
+    Permutation (cni_abs n' ++ cni_abs new ++ cni_abs t') (cni_abs new ++ cni_abs delta ++ cni_abs total).
+Proof. exact cni_merge_conserves. Qed.
+
+(* ... but the equation itself fails: delta's extra shards are not moved to total and come back as the next new *)
+Theorem c19_noindex_merge_unequal_refuted :
+  exists (new delta total n' d' t' : cni),
+    length (snd delta) <> length (snd total) /\
+    merge3r cni_move new delta total = Ok (n', d', t') /\
+    cni_abs new = [] /\ cni_abs delta = [7; 8] /\ cni_abs total = [9] /\
+    cni_abs t' = [9; 7] /\ cni_abs n' = [8] /\ cni_abs d' = [].
+Proof. exact cni_merge_unequal_refuted. Qed.
+
+(* concurrent pushes are all retained, for every interleaving and every assignment of threads to shards *)
+Theorem c19_cni_concurrent : forall (threads : list (list (nat * Z))) schedule c,
+  fst c = false -> snd c <> [] -> interleave threads schedule ->
+  exists c', steps cni_step schedule c = Ok c' /\ Permutation (cni_abs c') (map snd (concat threads) ++ cni_abs c).
+Proof. exact cni_concurrent_inserts. Qed.
+
+Theorem c19_cni_concurrent_then_lookup : forall pool (threads : list (list (nat * Z))) schedule, interleave threads schedule ->
+  exists c', steps cni_step schedule (cni_default pool) = Ok c' /\
+    exists vs, cni_get (cni_freeze c') = Ok (Some vs) /\ Permutation vs (map snd (concat threads)).
+Proof. exact cni_concurrent_then_lookup. Qed.
+
+(* ================================================================ non-vacuity: oracles exist, the empty indices satisfy the
+   invariants, and concrete histories run (merge with delta larger than total; a lost-shard merge; a race) *)
+Example c19_oracles_exist : permuting sh_rev /\ permuting sh_id.
+Proof. exact (conj sh_rev_permuting sh_id_permuting). Qed.
+
+Example c19_empty_indices : forall hash n,
+  hv_wf [] /\ lat_wf [] /\ cri_wf hash (dm_default [] n) /\ cfi_wf hash (dm_default [] n) /\ clat_wf hash (dm_default [] n) /\
+  (n <> O -> has_shards hvec (dm_default [] n)).
+Proof.
+  intros hash n; exact (conj (conj (NoDup_nil _) (Forall_nil _)) (conj (conj (NoDup_nil _) (Forall_nil _))
+    (conj (proj1 (cri_default_wf hash n)) (conj (proj1 (cfi_default_wf hash n)) (conj (proj1 (clat_default_wf hash n))
+    (dm_default_has_shards hvec [] n)))))).
+Qed.
+
+Example c19_interleaving_exists :
+  interleave [[(1, 10); (2, 20)]; [(1, 11)]] [(1, 10); (1, 11); (2, 20)].
+Proof.
+  exact (il_step [] (1, 10) [(2, 20)] [[(1, 11)]] _ (il_step [[(2, 20)]] (1, 11) [] [] _ (il_step [] (2, 20) [] [[]] _
+          (il_done [[]; []] (Forall_cons _ eq_refl (Forall_cons _ eq_refl (Forall_nil _))))))).
+Qed.
+
+Example c19_example_serial :
+  run0 (I_hv sh_rev) [OIns 1 3 7; OIns 1 3 8; OIns 1 4 5; OIns 2 3 1; OMerge; OGet 2 3; OGet 2 9; OLen 2; OGet 1 3; OIns 1 3 2; OCombGet 3]
+  = [RGet (Some [7; 8; 1]); RGet None; RNum 2; RGet None; RGet (Some [7; 8; 1; 2])].
+Proof. vm_compute. reflexivity. Qed.
+
+Example c19_example_concurrent :
+  run0 (I_cfi sh_rev (fun k => Z.to_nat k) 4) [ONp 2 1 7; OPar 2 [(1, 1, 5); (1, 6, 6); (1, 6, 9); (0, 2, 2)]; OFrz 2; OGet 2 6; OHas 2 1; OLen 2]
+  = [RBool true; RPar [(1, false); (6, true); (6, false)]; RGet (Some [6]); RBool true; RNum 3] /\
+  run0 (I_cni 2 3 2) [OIns 1 0 7; OIns 1 2 8; OIns 2 1 9; OMerge; OFrz 2; OFrz 0; OGet 2 0; OGet 0 0]
+  = [RGet (Some [7; 9]); RGet (Some [8])].
+Proof. vm_compute. split; reflexivity. Qed.
+
+Print Assumptions c19_hv_insert. Print Assumptions c19_hv_lookup. Print Assumptions c19_hv_inserts_then_lookup.
+Print Assumptions c19_hv_iter_all. Print Assumptions c19_hv_len. Print Assumptions c19_hv_move. Print Assumptions c19_hv_merge.
+Print Assumptions c19_full_insert. Print Assumptions c19_full_insert_if_not_present. Print Assumptions c19_full_contains.
+Print Assumptions c19_full_move. Print Assumptions c19_full_move_disjoint. Print Assumptions c19_full_merge. Print Assumptions c19_full_iter_all.
+Print Assumptions c19_lat_insert. Print Assumptions c19_lat_lookup. Print Assumptions c19_lat_iter_all. Print Assumptions c19_lat_move.
+Print Assumptions c19_lat_merge. Print Assumptions c19_noindex. Print Assumptions c19_combined.
+Print Assumptions c19_cri_insert. Print Assumptions c19_cri_lookup. Print Assumptions c19_cri_iter_all. Print Assumptions c19_cri_freeze.
+Print Assumptions c19_cri_merge. Print Assumptions c19_cri_concurrent.
+Print Assumptions c19_cfi_insert_if_not_present. Print Assumptions c19_cfi_insert. Print Assumptions c19_cfi_reads. Print Assumptions c19_cfi_freeze.
+Print Assumptions c19_cfi_move. Print Assumptions c19_cfi_concurrent_one_winner.
+Print Assumptions c19_clat_insert. Print Assumptions c19_clat_lookup. Print Assumptions c19_clat_iter_all. Print Assumptions c19_clat_freeze.
+Print Assumptions c19_clat_merge. Print Assumptions c19_clat_concurrent.
+Print Assumptions c19_cni_insert. Print Assumptions c19_cni_reads_freeze. Print Assumptions c19_cni_merge. Print Assumptions c19_cni_merge_conserves.
+Print Assumptions c19_noindex_merge_unequal_refuted. Print Assumptions c19_cni_concurrent.
+Print Assumptions c19_hv_history. Print Assumptions c19_cri_concurrent_then_lookup. Print Assumptions c19_cfi_concurrent_mixed.
+Print Assumptions c19_clat_concurrent_then_lookup. Print Assumptions c19_cni_concurrent_then_lookup.
+Print Assumptions c19_interleaving_exists. Print Assumptions c19_oracles_exist. Print Assumptions c19_empty_indices. Print Assumptions c19_example_serial. Print Assumptions c19_example_concurrent.
